@@ -38,6 +38,7 @@ pub struct Gen<'a> {
     stmts_left: usize,
     pending_fields: Option<(usize, Vec<Ty>)>,
     iterating: Vec<u32>,
+    in_let_init: bool,
     pub tags: std::collections::BTreeSet<&'static str>,
 }
 
@@ -65,6 +66,7 @@ impl<'a> Gen<'a> {
             stmts_left: stmts,
             pending_fields: None,
             iterating: Vec::new(),
+            in_let_init: false,
             tags: Default::default(),
         }
     }
@@ -146,6 +148,12 @@ impl<'a> Gen<'a> {
     }
 
     fn atom(&mut self, ty: &Ty) -> Expr {
+        if *ty == Ty::Dict && !self.cfg.sw.dict_inline_literal && !self.in_let_init {
+            // a dict literal outside an annotated initializer misses the HashMap import (known finding)
+            if let Some(v) = self.simple(ty) {
+                return v;
+            }
+        }
         let vars = self.vars_of(ty);
         let use_var = !vars.is_empty() && self.t.chance(2, 3);
         if use_var {
@@ -442,9 +450,31 @@ impl<'a> Gen<'a> {
             1,
             if sw.models { 2 } else { 0 },
             if sw.float_ops { 1 } else { 0 },
+            if sw.list_builtins { 2 } else { 0 },
+            if sw.tuple { 1 } else { 0 },
         ];
         match self.t.weighted(&w) {
             0 => self.atom(&Ty::Int),
+            12 => {
+                let Some(xs) = self.simple(&Ty::list(Ty::Int)) else { return self.atom(&Ty::Int) };
+                let f = [ListFn::Sum, ListFn::Max, ListFn::Min][self.t.below(3)];
+                self.tag(match f {
+                    ListFn::Sum => "list_sum",
+                    ListFn::Min => "list_min",
+                    ListFn::Max => "list_max",
+                });
+                Expr::ListFn(f, Box::new(xs))
+            }
+            13 => {
+                let tt = Ty::Tuple(vec![Ty::Int, Ty::Str]);
+                match self.simple(&tt) {
+                    Some(t) => {
+                        self.tag("tuple_index");
+                        Expr::TupleIdx(Box::new(t), 0)
+                    }
+                    None => self.atom(&Ty::Int),
+                }
+            }
             1 => {
                 self.tag("int_addsub");
                 let op = if self.t.chance(1, 2) { BinOp::Sub } else { BinOp::Add };
@@ -494,10 +524,12 @@ impl<'a> Gen<'a> {
             }
             7 => {
                 if sw.dict && self.t.chance(1, 4) {
-                    self.tag("dict_get");
-                    let d = self.atom(&Ty::Dict);
-                    let k = self.dict_key();
-                    return Expr::Index(Box::new(d), Box::new(k));
+                    if let Some(d) = self.simple(&Ty::Dict) {
+                        self.tag("dict_get");
+                        let k = self.dict_key();
+                        return Expr::Index(Box::new(d), Box::new(k));
+                    }
+                    return self.atom(&Ty::Int);
                 }
                 self.tag("list_index");
                 match self.operand(&Ty::list(Ty::Int), depth, P_ATOM, true) {
@@ -785,10 +817,14 @@ impl<'a> Gen<'a> {
                 let neg = self.t.chance(1, 3);
                 match self.t.below(3) {
                     1 if sw.dict => {
-                        self.tag("in_dict");
-                        let k = self.dict_key();
-                        let d = self.atom(&Ty::Dict);
-                        Expr::In(Box::new(k), Box::new(d), neg)
+                        match self.simple(&Ty::Dict) {
+                            Some(d) => {
+                                self.tag("in_dict");
+                                let k = self.dict_key();
+                                Expr::In(Box::new(k), Box::new(d), neg)
+                            }
+                            None => self.atom(&Ty::Bool),
+                        }
                     }
                     2 => {
                         self.tag("in_str");
@@ -860,9 +896,20 @@ impl<'a> Gen<'a> {
             if sw.str_concat && self.can(6, min_prec) { 2 } else { 0 },
             if sw.models { 1 } else { 0 },
             if sw.list_str && sw.str_methods && sw.str_join { 1 } else { 0 }, // join
+            if sw.tuple { 1 } else { 0 },
         ];
         match self.t.weighted(&w) {
             0 => self.atom(&Ty::Str),
+            10 => {
+                let tt = Ty::Tuple(vec![Ty::Int, Ty::Str]);
+                match self.simple(&tt) {
+                    Some(t) => {
+                        self.tag("tuple_index");
+                        Expr::TupleIdx(Box::new(t), 1)
+                    }
+                    None => self.atom(&Ty::Str),
+                }
+            }
             1 => {
                 self.tag("str_index");
                 match self.operand(&Ty::Str, depth, P_ATOM, false) {
@@ -994,9 +1041,17 @@ impl<'a> Gen<'a> {
             2, // slice
             if sw.comprehension && *el == Ty::Int { 3 } else { 0 },
             if self.pure_only == 0 && !self.callable_fns(&lt).is_empty() { 2 } else { 0 },
+            if sw.list_builtins && *el == Ty::Int { 1 } else { 0 },
         ];
         match self.t.weighted(&w) {
             0 => self.atom(&lt),
+            5 => match self.simple(&lt) {
+                Some(xs) => {
+                    self.tag("list_sorted");
+                    Expr::Sorted(Box::new(xs))
+                }
+                None => self.atom(&lt),
+            },
             1 => {
                 self.tag("list_lit");
                 let n = [2usize, 1, 3, 4, 0][self.t.below(5)];
@@ -1053,6 +1108,9 @@ impl<'a> Gen<'a> {
         }
         if sw.dict {
             v.push(Ty::Dict);
+        }
+        if sw.tuple {
+            v.push(Ty::Tuple(vec![Ty::Int, Ty::Str]));
         }
         if sw.option_result {
             v.push(Ty::Opt(Box::new(Ty::Int)));
@@ -1120,7 +1178,12 @@ impl<'a> Gen<'a> {
 
     fn let_of(&mut self, ty: Ty, depth: u32) -> Stmt {
         let mut ty = ty;
+        self.in_let_init = true;
         let mut e = self.expr(&ty, depth, 0);
+        self.in_let_init = false;
+        if ty == Ty::Dict && !matches!(e, Expr::DictLit(_)) && !self.cfg.sw.dict_inline_literal {
+            e = self.literal(&Ty::Dict, 0);
+        }
         if !self.cfg.sw.result_literal_binding && matches!(e, Expr::SomeE(_) | Expr::NoneE | Expr::OkE(_) | Expr::ErrE(_)) {
             ty = Ty::Int;
             e = self.expr(&ty, depth, 0);
@@ -1153,7 +1216,7 @@ impl<'a> Gen<'a> {
             }
         };
         // annotate when the type cannot be inferred from the initializer, else sometimes
-        let must = needs_annotation(&e);
+        let must = needs_annotation(&e) || matches!(e, Expr::DictLit(_));
         let annotated = must || self.t.chance(1, 2);
         match kind {
             LetKind::Let => self.tag("let"),
@@ -1683,7 +1746,34 @@ impl<'a> Gen<'a> {
         self.tag(if is_class { "class" } else { "model" });
     }
 
+    /// `def f(n: int, acc: int) -> int: if n <= 0: return acc; [println(n)]; return f(n - 1, acc <op> n)` or the
+    /// non-tail form `return n <op> f(n - 1, acc)`
+    fn gen_recursive_fn(&mut self) {
+        let f = self.fns.len();
+        let (n, acc) = (self.fresh(), self.fresh());
+        let op = [BinOp::Add, BinOp::Mul, BinOp::Sub][self.t.below(3)];
+        let tail = self.t.chance(1, 2);
+        let mut body = vec![Stmt::If { arms: vec![(Expr::Bin(BinOp::Le, Box::new(Expr::Var(n)), Box::new(Expr::Int(0))), vec![Stmt::Return(Some(Expr::Var(acc)))])], els: None }];
+        if self.t.chance(1, 2) {
+            body.push(Stmt::Print(Expr::Var(n)));
+        }
+        let dec = Expr::Bin(BinOp::Sub, Box::new(Expr::Var(n)), Box::new(Expr::Int(1)));
+        if tail {
+            let step = Expr::Bin(op, Box::new(Expr::Var(acc)), Box::new(Expr::Var(n)));
+            body.push(Stmt::Return(Some(Expr::SelfCall(f, vec![dec, step]))));
+        } else {
+            let call = Expr::SelfCall(f, vec![dec, Expr::Var(acc)]);
+            body.push(Stmt::Return(Some(Expr::Bin(op, Box::new(Expr::Var(n)), Box::new(call)))));
+        }
+        self.tag("recursion");
+        self.fns.push(FnSig { params: vec![(Ty::Int, false), (Ty::Int, false)], ret: Ty::Int });
+        self.fn_defs.push(FnDef { params: vec![(n, Ty::Int, None), (acc, Ty::Int, None)], ret: Ty::Int, body });
+    }
+
     fn gen_fn(&mut self) {
+        if self.cfg.sw.recursion && self.t.chance(1, 5) {
+            return self.gen_recursive_fn();
+        }
         let np = self.t.below(4);
         let mut params = Vec::new();
         let ptypes = {
@@ -1827,8 +1917,8 @@ pub fn walk_expr(e: &Expr, f: &mut dyn FnMut(&Expr)) {
             walk_expr(a, f);
             walk_expr(b, f);
         }
-        Expr::Neg(a) | Expr::Not(a) | Expr::Len(a) | Expr::Abs(a) | Expr::ToInt(a) | Expr::ToFloat(a) | Expr::ToStr(a) | Expr::SomeE(a) | Expr::OkE(a) | Expr::ErrE(a) | Expr::Try(a) | Expr::Paren(a) | Expr::TupleIdx(a, _) | Expr::Field(a, _, _) => walk_expr(a, f),
-        Expr::Call(_, args, _) | Expr::ListLit(args, _) | Expr::New(_, args) | Expr::Variant(_, _, args) | Expr::TupleLit(args) => {
+        Expr::ListFn(_, a) | Expr::Sorted(a) | Expr::Neg(a) | Expr::Not(a) | Expr::Len(a) | Expr::Abs(a) | Expr::ToInt(a) | Expr::ToFloat(a) | Expr::ToStr(a) | Expr::SomeE(a) | Expr::OkE(a) | Expr::ErrE(a) | Expr::Try(a) | Expr::Paren(a) | Expr::TupleIdx(a, _) | Expr::Field(a, _, _) => walk_expr(a, f),
+        Expr::SelfCall(_, args) | Expr::Call(_, args, _) | Expr::ListLit(args, _) | Expr::New(_, args) | Expr::Variant(_, _, args) | Expr::TupleLit(args) => {
             for a in args {
                 walk_expr(a, f);
             }
